@@ -11,7 +11,7 @@ import (
 
 func init() {
 	register("C19", propMeta{
-		Explanation: "E-TAINT + E-LOCK + E-CONST. O-1: in printMetrics every uint event counter of Metrics reaches the logger only as binCount(field); binCount has the ceil-to-8 shape (same constant 8 in the quotient and the product, Ceil not Floor/Round, or the integer form ((x+7)/8)*8); the sets 'counters incremented' = 'counters printed' = 'counters reset' agree, and the per-country maps created in NewMetrics are the ones reset. O-2: the rounded Prometheus counter's (total, value) pair is read and written only under its own mutex, inside one critical section per Inc, never through sync/atomic mixed with plain access, and value grows by the constant 8 only on the total > value edge. O-3: UpdateCountryStats/RecordIPAddress run with Metrics.lock in their entry lockset and every per-country count change lies behind the 'address not seen yet' edges. O-4: in ipsetsink the raw address reaches the sketch only through the keyed HMAC. O-5: the journal window predicate compares RecordingStart with from and RecordingEnd with to. Each is a necessary condition: e.g. a counter printed raw publishes a non-multiple of 8; a non-atomic pair publishes a value below the truth for some schedule. Added after the second seeding round: O-1d the matched figures (clientProxyMatchCount, ClientPollTotal{status=matched}) are incremented only on the edge on which the proxy's answer was received; O-5b every journal line is decoded into a record and a sketch created in that iteration; O-5c the journal reader uses no length-limited line scanner, or returns its Err() (D19). Added after the third seeding round: O-1e the guarded-by rows of Metrics and CountryStats are evaluated here too (an increment outside metrics.lock can be lost, publishing a count below the truth); O-4b RecordIPAddress is called from ProxyPolls itself on every path that updates the country statistics, and WriteIPSetToDisk resets the sketch and advances lastWriteTime on every way out after the chunk was written; O-4 no longer names maskIPAddress: the value added to the sketch must derive from hmac.New(_, ipMaskingKey).Sum. Added after the fourth seeding round: O-1 follows each counter forward (taint analysis through tables, helpers and loops) to the logger, binCount being the only sanitiser; O-1f every decoded poll increments one of the two relay-extension counters on every path; O-4 the bytes written to the HMAC are the address string itself. Added after the fifth seeding round: O-1g the per-type report and its total range over countryStats.proxies itself; the nat label of ProxyPollTotal{status=matched} is the NAT type decoded from this poll; ClusterWriter.AddIPToSet adds the address to the current sketch on every path.",
+		Explanation: "E-TAINT + E-LOCK + E-CONST. O-1: in printMetrics every uint event counter of Metrics reaches the logger only as binCount(field); binCount has the ceil-to-8 shape (same constant 8 in the quotient and the product, Ceil not Floor/Round, or the integer form ((x+7)/8)*8); the sets 'counters incremented' = 'counters printed' = 'counters reset' agree, and the per-country maps created in NewMetrics are the ones reset. O-2: the rounded Prometheus counter's (total, value) pair is read and written only under its own mutex, inside one critical section per Inc, never through sync/atomic mixed with plain access, and value grows by the constant 8 only on the total > value edge. O-3: UpdateCountryStats/RecordIPAddress run with Metrics.lock in their entry lockset and every per-country count change lies behind the 'address not seen yet' edges. O-4: in ipsetsink the raw address reaches the sketch only through the keyed HMAC. O-5: the journal window predicate compares RecordingStart with from and RecordingEnd with to. Each is a necessary condition: e.g. a counter printed raw publishes a non-multiple of 8; a non-atomic pair publishes a value below the truth for some schedule. Added after the second seeding round: O-1d the matched figures (clientProxyMatchCount, ClientPollTotal{status=matched}) are incremented only on the edge on which the proxy's answer was received; O-5b every journal line is decoded into a record and a sketch created in that iteration; O-5c the journal reader uses no length-limited line scanner, or returns its Err() (D19). Added after the third seeding round: O-1e the guarded-by rows of Metrics and CountryStats are evaluated here too (an increment outside metrics.lock can be lost, publishing a count below the truth); O-4b RecordIPAddress is called from ProxyPolls itself on every path that updates the country statistics, and WriteIPSetToDisk resets the sketch and advances lastWriteTime on every way out after the chunk was written; O-4 no longer names maskIPAddress: the value added to the sketch must derive from hmac.New(_, ipMaskingKey).Sum. Added after the fourth seeding round: O-1 follows each counter forward (taint analysis through tables, helpers and loops) to the logger, binCount being the only sanitiser; O-1f every decoded poll increments one of the two relay-extension counters on every path; O-4 the bytes written to the HMAC are the address string itself. Added after the fifth seeding round: O-1g the per-type report and its total range over countryStats.proxies itself; the nat label of ProxyPollTotal{status=matched} is the NAT type decoded from this poll; ClusterWriter.AddIPToSet adds the address to the current sketch on every path. Added after the sixth seeding round and the mutation audit: O-4b RecordIPAddress receives result 0 of net.SplitHostPort; O-5d ClusterCounter.Count returns a result only behind the decoder's io.EOF edge.",
 		NotDecided:  "floating-point exactness of binCount beyond 2^53, HyperLogLog accuracy, which events should be counted, the arithmetic correctness of rounding for all histories (only its shape is decided).",
 		Assumptions: []string{"math.Ceil, crypto/hmac and hyperloglog behave as documented", "lock identity is (type, field)"},
 	}, runC19)
@@ -560,6 +560,50 @@ func (c *Ctx) checkWindowPredicate() {
 		return
 	}
 	c.analysedFn(p.FnName(fn))
+	// every chunk of the journal is examined: a result is returned only after the decoder reported io.EOF
+	{
+		var eofEdges []Edge
+		for _, ci := range callsIn(fn) {
+			dc, ok := ci.(*ssa.Call)
+			if !ok || calleeName(ci) != "(*encoding/json.Decoder).Decode" {
+				continue
+			}
+			eofEdges = append(eofEdges, condEdges(fn, true, func(a Atom) bool {
+				if a.Op != token.EQL {
+					return false
+				}
+				isDec := func(v ssa.Value) bool { return strip(v) == ssa.Value(dc) }
+				isEOF := func(v ssa.Value) bool {
+					u, okU := strip(v).(*ssa.UnOp)
+					if !okU {
+						return false
+					}
+					g, okG := u.X.(*ssa.Global)
+					return okG && g.Pkg != nil && g.Pkg.Pkg.Path() == "io" && g.Name() == "EOF"
+				}
+				return (isDec(a.X) && isEOF(a.Y)) || (isDec(a.Y) && isEOF(a.X))
+			})...)
+		}
+		if len(eofEdges) == 0 {
+			c.undecided("O-5d the journal is read to its end", "ClusterCounter.Count leaves its loop at io.EOF only", p.Pos(fn.Pos()), "no comparison of the decoder's error with io.EOF found")
+		} else {
+			var bad *ssa.Return
+			var path []*ssa.BasicBlock
+			for _, r := range returnsOf(fn) {
+				if len(r.Results) == 0 || !isNilConst(strip(retVal(r, len(r.Results)-1))) {
+					continue
+				}
+				if pth := reachableWithout(fn, r, eofEdges); pth != nil {
+					bad, path = r, pth
+				}
+			}
+			if bad != nil {
+				c.viol("O-5d the journal is read to its end", "ClusterCounter.Count leaves its loop at io.EOF only", p.instrPos(bad), "a result is returned on a path that did not see the end of the journal (a break or return inside the loop): chunks that come later in the stream are never merged and the distinct count comes out too low", p.pathString(path)...)
+			} else {
+				c.ok("O-5d the journal is read to its end", "ClusterCounter.Count leaves its loop at io.EOF only", p.Pos(fn.Pos()), fmt.Sprintf("%d io.EOF edge(s)", len(eofEdges)))
+			}
+		}
+	}
 	fieldName := func(v ssa.Value) string {
 		if _, f, ok := fieldLoad(v); ok {
 			return f.Name()
@@ -704,6 +748,15 @@ func (c *Ctx) checkJournalFeeding() {
 		}
 		if n == 0 {
 			c.okTrivial(rule, "ProxyPolls feeds the journal on every path that updates the country statistics", p.Pos(pp.Pos()), "UpdateCountryStats is not called from ProxyPolls: obligation not evaluated here")
+		}
+		// what is recorded is the address: the host part of the peer's host:port (a different source port must
+		// not make a different journal entry)
+		for _, d := range deepCalls(pp, 2, funcFullName(rec)) {
+			ci, ok := d.In.(ssa.CallInstruction)
+			if !ok || len(ci.Common().Args) < 2 {
+				continue
+			}
+			c.check(isResultOf(ci.Common().Args[1], 0, "net.SplitHostPort"), rule, "the journal records the host part of the peer address", p.instrPos(ci), "argument is result 0 of net.SplitHostPort", "RecordIPAddress is not given the host returned by net.SplitHostPort: with the port included one address polling from several source ports is counted several times")
 		}
 	}
 	w := p.Fn("common/ipsetsink/sinkcluster", "(*ClusterWriter).WriteIPSetToDisk")
